@@ -854,6 +854,73 @@ def _tasks(tier):
     return [(phase, d, k, n, tier) for phase in PHASES for d in corpus.dialects() for k in range(n)]
 
 
+# ---------------------------------------------------------------------------------------------------
+# literal SEQUENCES: two literals printed by ONE generator in one statement.  Relative contract: each literal lexes to the
+# same token as when it is generated alone (so the text produced for one literal cannot depend on what the same generator
+# printed before it: shared escape tables, memoised escapes keyed too coarsely, ...).
+SEQ_KINDS = ("plain", "national", "raw", "byte")
+SEQ_CHARS = ["\\", "'", "\"", "a", "\n"]
+
+
+def _seq_strings():
+    out = list(SEQ_CHARS)
+    out += [a + b for a in SEQ_CHARS for b in SEQ_CHARS]
+    return out
+
+
+def _seq_work(d):
+    logging.getLogger("sqlglot").setLevel(logging.ERROR)
+    D = _dialect(d)
+    kinds = [lk for lk in SEQ_KINDS if constructible(d, lk)]
+    strings = _seq_strings()
+    alone = {}
+    for lk in kinds:
+        for v in strings:
+            sql, e = _guard(gen_string, d, lk, v, False)
+            toks = None
+            if e is None:
+                toks, e2 = _guard(_toks, D, sql)
+                if e2 is not None or not toks or len(toks) != 1:
+                    toks = None
+            alone[(lk, v)] = toks[0] if toks else None
+    evals = 0
+    viol = {}
+    for la in kinds:
+        for lb in kinds:
+            for va in strings:
+                if alone[(la, va)] is None:
+                    continue
+                for vb in strings:
+                    if alone[(lb, vb)] is None:
+                        continue
+                    evals += 1
+                    tree = exp.Select(expressions=[make_literal(D, la, va), make_literal(D, lb, vb)])
+                    sql, e = _guard(lambda: tree.sql(dialect=d or None))
+                    how = None
+                    if e is not None:
+                        how = _exc("generate-", e)
+                    else:
+                        toks, e2 = _guard(_toks, D, sql)
+                        if e2 is not None:
+                            how = _tok_how(e2)
+                        else:
+                            lits = [t for t in toks if t[0] not in ("SELECT", "COMMA")]
+                            if len(lits) != 2:
+                                how = "token-count"
+                            elif lits[0] != alone[(la, va)]:
+                                how = "first-literal-differs-from-alone"
+                            elif lits[1] != alone[(lb, vb)]:
+                                how = "second-literal-differs-from-alone"
+                    if how:
+                        key = f"c04:sequence:{_dname(d)}:{la}-then-{lb}.{how}.{trigger_class(vb if 'second' in how else va)}"
+                        slot = viol.setdefault(key, {"count": 0, "examples": []})
+                        slot["count"] += 1
+                        if len(slot["examples"]) < 3:
+                            slot["examples"].append({"key": key, "what": f"two literals in one statement ({la} {va!r}, then {lb} {vb!r}) in dialect {_dname(d)}: {how}",
+                                                     "input": {"kind": "sequence", "dialect": d, "variant": [la, lb], "v": [va, vb], "sql": sql if e is None else None}})
+    return {"evals": evals, "viol": viol, "dialect": d}
+
+
 def run(tier, seed):
     logging.getLogger("sqlglot").setLevel(logging.ERROR)
     tasks = _tasks(tier)
@@ -879,6 +946,17 @@ def run(tier, seed):
             s = viol.setdefault(key, {"count": 0, "examples": []})
             s["count"] += slot["count"]
             s["examples"] += slot["examples"]
+    seq_results = harness.pool_map(_seq_work, corpus.dialects(), chunksize=1)
+    seq_evals = 0
+    for r in seq_results:
+        seq_evals += r["evals"]
+        for key, slot in r["viol"].items():
+            s_ = viol.setdefault(key, {"count": 0, "examples": []})
+            s_["count"] += slot["count"]
+            s_["examples"] += slot["examples"]
+    evals += seq_evals
+    per_phase["seq"] = seq_evals
+    by_func["Select-of-two-literals.sql+tokenize"] = seq_evals
     violations = []
     for key in sorted(viol):
         s = viol[key]
@@ -932,6 +1010,10 @@ def run(tier, seed):
 def replay(entry):
     logging.getLogger("sqlglot").setLevel(logging.ERROR)
     inp = entry["input"]
+    if inp.get("kind") == "sequence":
+        r = _seq_work(inp["dialect"])
+        hit = entry["key"] in r["viol"]
+        return {"violated": hit, "observed": "; ".join(sorted(r["viol"])) or "contract holds"}
     variant = inp["variant"]
     if isinstance(variant, list):
         variant = tuple(variant)
